@@ -49,7 +49,7 @@ def make_script(rng, wrap):
             v = vers[i] if rng.chance(9, 10) else 1 - vers[i]
             d = W.tx_datagram(v, f, rng.below(8), rng.choice([0, 7]), W.rand_burst(rng, 148), pad=rng.choice([0, 2]))
             if rng.chance(1, 15):
-                d = d[:rng.below(len(d))]
+                d = d[:rng.choice([6, 6, rng.below(len(d))])]      # header only (an idle indication towards version-1 peers) or cut anywhere
             ops.append(("data", i, d))
         else:
             ops.append(("tick", fn))
@@ -66,6 +66,7 @@ def oracle(ctx, script, real):
     side = [0, 1] + [0 if d[1] == 5700 else 1 for d in defs]
     pend = [[] for _ in range(n)]        # accepted, not yet accounted: (fn, tn, burst length)
     run = [False] * n
+    ver = [0] * n                        # negotiated header version of each transceiver's L1 link
     for e in events:
         op = e["op"]
         if op[0] == "ctrl":
@@ -73,7 +74,9 @@ def oracle(ctx, script, real):
             rsp = bytes(e["obs"][3:]).decode().strip("\0").split(" ") if e["obs"][1] == 1 else None
             i = op[1]
             aff = [i] + (cfg[i]["children"] if cfg[i]["mgt"] and cfg[i]["idx"] == 0 else [])
-            if toks[1] == "POWERON" and rsp and rsp[2] == "0":
+            if toks[1] == "SETFORMAT" and rsp and len(toks) == 3 and rsp[2] == toks[2]:
+                ver[i] = int(toks[2])
+            elif toks[1] == "POWERON" and rsp and rsp[2] == "0":
                 for j in aff:
                     run[j] = True
             elif toks[1] == "POWEROFF":
@@ -109,11 +112,12 @@ def oracle(ctx, script, real):
                         ctx.oracle_fail("a powered-off transceiver emitted or reported bursts (bursts queued before a power-off survived it?)",
                                         dict(tick=fn, trx=i, trx_defs=defs, ops=[SC.describe(x) for x in ops]), key="c03-idle-emits")
                     continue
-                # bursts of odd length are forwarded too, but the recipient's send_msg() refuses them (C13): nothing visible
-                due = [m[:2] for m in pend[i] if dlt(m[0]) == 0 and m[2] in (148, 444)]
+                # bursts of odd length are forwarded too, but the recipient's send_msg() refuses them (C13): nothing visible;
+                # a header-only datagram (no burst) is forwarded as an idle indication, which only a version-1 link can carry
                 n_due = len([m for m in pend[i] if dlt(m[0]) == 0])
                 past = [m[0] for m in pend[i] if dlt(m[0]) >= H // 2]
                 for j in peers:
+                    due = [m[:2] for m in pend[i] if dlt(m[0]) == 0 and (m[2] in (148, 444) or (m[2] == 0 and ver[j] == 1))]
                     got = emitted.get((i, j), [])
                     if got != due:
                         ctx.oracle_fail("bursts put on the air at a tick differ from the queued bursts of that frame (each exactly once, in order)",
